@@ -10,7 +10,7 @@ Lines (fields separated by ` ||| `):
 * `infer ||| x:T,y:U (or -) ||| <ir text>` — `inferType` of the IR the front end emitted, in `_parsable_string` syntax, or `none`
 * `impute ||| <python value>` — `t=<imputeType v, struct fields sorted by name | none> ok=<checkPy t v>`
 * `table ||| op ; op ; …` — the table type after a sequence of Table API calls starting from `range_table`:
-  `annotate x=T,y=U`, `annotate_globals g=T`, `select a,b|z=T`, `drop a,b`, `key_by a,b`, `filter`, `order_by`, `rename a=b,c=d`,
+  `annotate x=T&y=U`, `annotate_globals g=T`, `select a,b|z=T&w=U`, `drop a,b`, `key_by a,b`, `filter`, `order_by`, `rename a=b,c=d`,
   `explode a`; answer `g=<globals struct> r=<row struct> k=<key fields>` or `none` (the front end refuses a call)
 * `check ||| <type> ||| <python value>` — `checkPy` of a value against a given type (the type the real `hl.literal` reported)
 Python values: `(none) (b 1) (i 5) (f 2) (s "x") (list v…) (tuple v…) (set v…) (dict (k v)…) (struct (name v)…)`.
@@ -54,7 +54,7 @@ def b2s (b : Bool) : String := if b then "1" else "0"
 open HailVerif.TableType in
 def readNamed (s : String) : Except String FieldList :=
   if s == "" then .ok [] else
-    (s.splitOn ",").mapM fun b => match b.splitOn "=" with
+    (s.splitOn "&").mapM fun b => match b.splitOn "=" with
       | [x, t] => do pure (x, ← readType t)
       | _ => .error "named"
 
